@@ -48,6 +48,8 @@ pub struct Harness {
     pub run_tag: u64,
     /// caller-owned buffers handed to the C API during this run (poisoned after the call, freed at the next reset)
     pub arena: Vec<Box<[u8]>>,
+    /// AST JSON -> hash the C API gave for it during this run
+    pub hashes: std::collections::BTreeMap<String, u64>,
 }
 
 static HARNESS: Mutex<Harness> = Mutex::new(Harness {
@@ -60,6 +62,7 @@ static HARNESS: Mutex<Harness> = Mutex::new(Harness {
     panics: Vec::new(),
     run_tag: 0,
     arena: Vec::new(),
+    hashes: std::collections::BTreeMap::new(),
 });
 
 pub fn harness<R>(f: impl FnOnce(&mut Harness) -> R) -> R {
@@ -82,6 +85,7 @@ pub fn reset(run_tag: u64) {
         h.run_tag = run_tag;
         // every context of the previous run is gone by now
         h.arena.clear();
+        h.hashes.clear();
     });
 }
 
